@@ -2,6 +2,7 @@ package e1
 
 import (
 	"fmt"
+	"os"
 	"testing"
 	"time"
 
@@ -77,6 +78,10 @@ func (w *World) mineChain(parent *chainmodel.Block, n int, spacing time.Duration
 			}
 		}
 		b = w.tree.Extend(b, o)
+		if os.Getenv("VERIF_DEBUG_MINE") != "" {
+			w.rc.Logf("mined %d %s ts=%s (asked %s) mtp(parent chain)=%s", b.Height, short(b.Hash), b.Hdr.Timestamp.UTC().Format("15:04:05"), ts.UTC().Format("15:04:05"),
+				chainmodel.MedianTimePast(b.Parent.Headers()).UTC().Format("15:04:05"))
+		}
 	}
 	return b
 }
@@ -295,7 +300,7 @@ func runHeaders(t *testing.T, rc *core.RunCtx) {
 		switch k := tp.Intn(100); {
 		case k < 25: // the node's chain grows; it announces
 			nb := 1 + tp.Intn(3)
-			p.view = w.mineChain(p.view, nb, time.Minute, time.Now().Add(-time.Duration(tp.Intn(50))*time.Second), 0, "", &plan.salt, 0)
+			p.setView(w.mineChain(p.view, nb, time.Minute, time.Now().Add(-time.Duration(tp.Intn(50))*time.Second), 0, "", &plan.salt, 0))
 			tips = append(tips, p.view)
 			rc.Logf("t=%s event: %s grows by %d to %d and announces", w.clock(), p.addr.IP, nb, p.view.Height)
 			p.announce(tp.Chance(1, 2), nb)
@@ -303,7 +308,7 @@ func runHeaders(t *testing.T, rc *core.RunCtx) {
 			nv := tips[tp.Intn(len(tips))]
 			rc.Logf("t=%s event: %s switches view %d(%s) -> %d(%s) tainted=%v", w.clock(), p.addr.IP, p.view.Height, short(p.view.Hash),
 				nv.Height, short(nv.Hash), nv.Tainted)
-			p.view = nv
+			p.setView(nv)
 			p.fhCache = nil
 			if tp.Chance(3, 4) {
 				p.announce(tp.Chance(1, 2), 1+tp.Intn(6))
@@ -321,11 +326,11 @@ func runHeaders(t *testing.T, rc *core.RunCtx) {
 				tips = append(tips, bad.Parent)
 			}
 			save := p.view
-			p.view = bad
+			p.setView(bad)
 			rc.Logf("t=%s event: %s offers %d headers, the last breaks %q", w.clock(), p.addr.IP, l, rule)
 			p.announce(true, l)
 			if tp.Chance(1, 2) {
-				p.view = save
+				p.setView(save)
 			}
 		case k < 82: // connection drops; the node stays reachable
 			rc.Logf("t=%s event: %s drops the connection", w.clock(), p.addr.IP)
@@ -348,7 +353,7 @@ func runHeaders(t *testing.T, rc *core.RunCtx) {
 		// then elicits headers that connect to it.
 		if wt.listAhead && wt.listTip != nil && !wt.listTip.Tainted && tp.Chance(1, 2) {
 			q := w.peers[tp.Intn(len(w.peers))]
-			q.view = w.mineChain(wt.listTip, 1+tp.Intn(2), time.Minute, time.Now().Add(-5*time.Second), 0, "", &plan.salt, 0)
+			q.setView(w.mineChain(wt.listTip, 1+tp.Intn(2), time.Minute, time.Now().Add(-5*time.Second), 0, "", &plan.salt, 0))
 			tips = append(tips, q.view)
 			rc.Logf("t=%s event: %s builds on the client's in-memory tip %d and announces", w.clock(), q.addr.IP, wt.listTip.Height)
 			rc.Probe("node_builds_on_in_memory_tip")
@@ -400,7 +405,7 @@ func runAdopt(w *World, wt *watcher, plan *chainPlan, tips []*chainmodel.Block) 
 	for i := 0; i < steps; i++ {
 		if tp.Chance(1, 3) {
 			nb := 1 + tp.Intn(3)
-			p.view = w.mineChain(p.view, nb, time.Minute, time.Now().Add(-time.Duration(tp.Intn(50))*time.Second), 0, "", &plan.salt, 0)
+			p.setView(w.mineChain(p.view, nb, time.Minute, time.Now().Add(-time.Duration(tp.Intn(50))*time.Second), 0, "", &plan.salt, 0))
 			tips = append(tips, p.view)
 			rc.Logf("t=%s adopt: node extends to %d", w.clock(), p.view.Height)
 			p.announce(tp.Chance(1, 2), nb)
@@ -409,7 +414,7 @@ func runAdopt(w *World, wt *watcher, plan *chainPlan, tips []*chainmodel.Block) 
 		}
 		nv := tips[tp.Intn(len(tips))]
 		rc.Logf("t=%s adopt: node switches %d(%s) -> %d(%s)", w.clock(), p.view.Height, short(p.view.Hash), nv.Height, short(nv.Hash))
-		p.view = nv
+		p.setView(nv)
 		if tp.Chance(1, 2) {
 			p.announce(false, 1)
 		} else {
